@@ -93,7 +93,36 @@ def gen_impl_text(rng):
     return f'input({",".join(ins)}) ' + (f'output({",".join(outs)}) ' if outs else '') + ' '.join(gates)
 
 
+def _hand_impl(name):
+    """the implementations of the *_refuted witnesses in Proofs/CircuitResolve.v (not expressible in bench syntax)"""
+    c = kc.Circuit('impl')
+    N, L = kc.Node, kc.Line
+    if name == '@dup':                     # a port listed twice
+        a, g, y = N(c, 'A'), N(c, 'G', 'BUF1'), N(c, 'Y')
+        L(c, a, g); L(c, g, y)
+        ios = [a, y, y]
+    elif name == '@cellport':              # a port that is a cell with an open output pin
+        a, g, y = N(c, 'A', 'input'), N(c, 'G', 'AND2'), N(c, 'Y')
+        L(c, (a, 0), g); L(c, (a, 2), g); L(c, g, y)
+        ios = [a, y]
+    elif name == '@desigport':             # the designated cell is a port
+        a, y, g, z = N(c, 'A'), N(c, 'Y'), N(c, 'G', 'BUF1'), N(c, 'Z')
+        L(c, a, y); L(c, y, g); L(c, g, z)
+        ios = [a, y, z]
+    elif name == '@forkout':               # a fork drives a pure output port
+        a, g, n, y2, h, y1 = N(c, 'A'), N(c, 'G', 'BUF1'), N(c, 'N'), N(c, 'Y2'), N(c, 'H', 'INV1'), N(c, 'Y1')
+        L(c, a, g); L(c, g, n); L(c, n, y2); L(c, n, h); L(c, h, y1)
+        ios = [a, y1, y2]
+    else:
+        raise ValueError(name)
+    for n in ios:
+        c.io_nodes.append(n)
+    return c
+
+
 def make_impl(text, elim):
+    if text.startswith('@'):
+        return _hand_impl(text)
     with contextlib.redirect_stdout(_io.StringIO()):
         c = bench.parse(text)
     if elim:
@@ -339,6 +368,28 @@ def io_ok(c):
     return all(n is not None and listed(c, n) for n in c.io_nodes)
 
 
+def impl_shape_ok(impl):
+    """Model/CircuitInv.v subst_shape_b beyond 'ports are distinct forks': the designated cell (first non-fork driver behind the
+    first output, found the way substitute finds it) is not a port, and no fork drives a pure output port."""
+    ios = list(impl.io_nodes)
+    is_port = lambda n: any(n is m for m in ios)
+    outs = [n.ins[0] for n in ios if len(n.ins) > 0]
+    if outs:
+        if outs[0] is None or outs[0].driver is None:
+            return False
+        n, steps = outs[0].driver, 0
+        while n.kind == FORK and not is_port(n):
+            if len(n.ins) == 0 or n.ins[0] is None or n.ins[0].driver is None or steps > len(impl.nodes):
+                return False
+            n, steps = n.ins[0].driver, steps + 1
+        if is_port(n):
+            return False
+    for l in impl.lines:
+        if is_port(l.reader) and len(l.reader.outs) == 0 and l.driver.kind == FORK:
+            return False
+    return True
+
+
 def subst_ok(S, node, impl):
     c = S.c
     if not listed(c, node) or node.kind == FORK or any(m is node for m in c.io_nodes):
@@ -346,6 +397,8 @@ def subst_ok(S, node, impl):
     if not io_ok(impl) or len(set(map(id, impl.io_nodes))) != len(impl.io_nodes) or any(n.kind != FORK for n in impl.io_nodes):
         return False
     if invariant(impl) is not None:
+        return False
+    if not impl_shape_ok(impl):
         return False
     n_in, n_out = impl_shape(impl)
     if len(node.ins) > n_in or len(node.outs) > n_out:
@@ -413,8 +466,34 @@ def pre_ok(S, op):
         impls = {kind: make_impl(text, el) for kind, text, el in op[1]}
         tr.on = True
         hit = [n for n in c.nodes if n.kind in impls]
-        return all(subst_ok(S, n, impls[n.kind]) for n in hit) and \
-            not any(k2 in impls for k2 in (m.kind for i in impls.values() for m in i.nodes))
+        if not (all(subst_ok(S, n, impls[n.kind]) for n in hit) and
+                not any(k2 in impls for k2 in (m.kind for i in impls.values() for m in i.nodes))):
+            return False
+        # every LIVE instance must satisfy substitute's precondition in the state in which the loop visits it (Model:
+        # resolve_pre_from); an instance that the clean-up of an earlier substitution removed is skipped by the code.  Decided on a copy.
+        if not hit:
+            return True
+        if not io_ok(c):
+            return False
+        tr.on = False
+        try:
+            try:
+                cc = c.copy()
+            except Exception:
+                return False        # only reachable after an ill-formed step ('wild' histories)
+            S2 = Session.__new__(Session)
+            S2.c = cc
+            for n in list(cc.nodes):
+                if n.circuit is not None and n.kind in impls:
+                    if not subst_ok(S2, n, impls[n.kind]):
+                        return False
+                    try:
+                        cc.substitute(n, impls[n.kind])
+                    except Exception:
+                        return False
+        finally:
+            tr.on = True
+        return True
     return False
 
 
@@ -596,6 +675,34 @@ def instance_scenarios(rng, n_random=6):
                     ops += [['io', 0, 1]] if nid > 1 else []
                     ops += [['subst', 0, text, elim], ['elim']]
                     out.append(ops)
+    return out
+
+
+def shape_witness_scenarios():
+    """the four substitute witnesses of Proofs/CircuitResolve.v (one per shape condition of Model/CircuitInv.v subst_shape_b):
+    NOT well-formed use (pre_ok rejects each); run as 'wild' so that model and implementation are compared on these inputs.
+    '@desigport' is left out of the automatic comparison: there the instance ends up as a '__fork__' that is still registered in
+    Circuit.cells, and Circuit.stats then counts it under the key '__fork__' a second time (stats[n.kind] += 1 collides with the
+    dunder key), which Model/Circuit.v stats does not reproduce; nodes, lines, dicts and io list of model and implementation
+    were compared by hand and agree."""
+    host12 = [['node', 'u', 'X'], ['node', 'i0', FORK], ['line', 1, None, 0, 0], ['node', 'o0', FORK], ['line', 0, 0, 2, None],
+              ['node', 'o1', FORK], ['line', 0, 1, 3, None]]
+    host11 = host12[:5]
+    return [host12 + [['subst', 0, '@dup', False]], host11 + [['subst', 0, '@cellport', False]],
+            host11 + [['subst', 0, '@forkout', False]]]
+
+
+def removed_instance_scenarios():
+    """resolve_tlib_cells reaches an instance that the clean-up of an earlier substitution removed (u2 drives only u1, whose output
+    is unconnected): well-formed use since commit 11c77ac (the loop skips it); before, the removed node was substituted
+    (Proofs/CircuitResolve.v resolve_removed_instance_refuted / _ok)."""
+    ta, tb = 'input(A) output(Y) Y=BUF1(A)', 'input(A) output(Y) Y=BUF1(A) D=INV1(Y)'
+    out = []
+    for ka, kb in (('CELLA', 'CELLB'), ('CELLB', 'CELLA')):
+        out.append([['node', 'u1', ka], ['node', 'u2', kb], ['node', 'i0', FORK], ['line', 2, None, 1, 0], ['line', 1, 0, 0, 0],
+                    ['io', 0, 2], ['resolve', [[ka, ta, True], [kb, tb, True]]], ['copy']])
+        out.append([['node', 'u1', ka], ['node', 'u2', kb], ['node', 'i0', FORK], ['line', 2, None, 1, 0], ['line', 1, 0, 0, 0],
+                    ['node', 'o', FORK], ['line', 0, 0, 3, None], ['io', 0, 2], ['resolve', [[ka, ta, True], [kb, tb, True]]], ['copy']])
     return out
 
 
